@@ -49,3 +49,60 @@ for _nd, _nxq, _nxt, _tiers in ((1, 4, 8, ('quick', 'thorough')), (2, 3, 4, ('qu
 CLAIMS = {'C15': 'Decided: the projection clause only: barycentric weights of a point in a segment/triangle (AMesh::_weightsInMesh with the closed-form determinants), '
                  'turbo-mesh indexing (mesh rank <-> (cell, case), apices are cell corners, the MSS simplices tile the cell) and the Horner evaluation of ClassicalPolynomial. '
                  'Not claimed: precision operators, symmetry/positive definiteness, Cholesky vs conjugate gradient, solver residuals.'}
+
+# ---- C15.c acceptance / clipping logic of MeshETurbo::_addWeights (linear solve overridden)
+_AWTUS = ['src/Mesh/MeshETurbo.cpp', 'src/Mesh/Delaunay.cpp', 'src/Basic/Grid.cpp', 'src/Basic/Indirection.cpp', 'src/Basic/Utilities.cpp', 'src/Basic/AStringable.cpp',
+          'src/Matrix/AMatrix.cpp', 'src/Matrix/AMatrixDense.cpp', 'src/Matrix/AMatrixSquare.cpp', 'src/Matrix/MatrixSquareGeneral.cpp', 'src/Matrix/MatrixRectangular.cpp']
+for _nd, _nxq, _nxt in ((1, 3, 5), (2, 3, 4), (3, 2, 3)):
+    K('C15.c.%d' % _nd, property='C15', engine='symex', harness='C15/addweights.cpp', entries=['k_addweights', 'k_addweights_masked'], tus=_AWTUS,
+      defines={'all': {'VF_ND': _nd}, 'quick': {'VF_NX': _nxq}, 'thorough': {'VF_NX': _nxt}},
+      bounds={'quick': '%d-D grid with %d nodes per direction, every mask pattern of the grid nodes (and no mask), with and without polarisation; every simplex case, every start node from one step '
+                       'below to one step above the grid; solved weights = arbitrary reals, inversion succeeds or fails' % (_nd, _nxq),
+              'thorough': '%d-D grid with %d nodes per direction' % (_nd, _nxt)},
+      timeout_ms={'quick': 120000, 'thorough': 900000}, validate={'quick': 60, 'thorough': 120}, validate_doubles='dyadic',
+      what='MeshETurbo::_addWeights (+ _getPolarized, MSS, Grid::indiceToRank, Indirection::getAToR/_getArrayAToR, getNApices): accepted => every lambda in [0,1] and within EPSILON6 of the solved '
+           'weight, every apex index is the relative rank of the in-grid, active corner given by the MSS table and lies in [0, getNApices()); rejected => a corner outside the grid, a masked corner, '
+           'a singular system or a weight outside [-EPSILON6, 1+EPSILON6]',
+      out='the linear solve itself (MatrixSquareGeneral inversion and product: C15.a decides the closed-form weights of AMesh::_weightsInMesh); corner coordinates / rotation; Indirection by map (_mode 1); '
+          'that the clipped weights still sum to one (they may be off by up to (ndim+1)*EPSILON6)',
+      assumptions=['MeshETurbo is raw storage with the real virtual table: _nDim, _grid._nDim/_nx, _nPerCell (real _setNumberElementPerCell), _isPolarized, _gridIndirect initialised by the harness',
+                   'grid mask representation invariant (Indirection::buildFromSel): relative rank of an active node = number of active nodes before it, -1 for a masked node'],
+      stubs=['AMatrix::invert: returns 0 or 1 arbitrarily', 'AMatrix::prodMatVecInPlace(constvect, vect, bool): writes an arbitrary real vector (the solved weights)',
+             'Grid::indiceToCoordinate: 0 (corner coordinates only feed the overridden system)', 'messerr / message / mesArg: empty'])
+
+# ---- C15.d row assembly of the projection matrix (weight routine overridden, NF_Triplet::add recorded)
+_PRTUS = ['src/Mesh/MeshETurbo.cpp', 'src/Mesh/MeshEStandard.cpp', 'src/Mesh/AMesh.cpp', 'src/Matrix/NF_Triplet.cpp', 'src/Basic/Grid.cpp', 'src/Basic/Indirection.cpp',
+          'src/Basic/Utilities.cpp', 'src/Basic/AStringable.cpp', 'src/Basic/ASerializable.cpp']
+_PR_STUBS = ['NF_Triplet::add(irow, icol, value): recorded (row/column maxima updated as the real one does, no Eigen storage)',
+             'MatrixSparse::resetFromTriplet: records the shape (max row + 1, max column + 1) that NF_Triplet::buildEigenFromTriplet gives the matrix',
+             'Db::getSampleNumber: VF_NS; Db::isActive: symbolic table; Db::getFromLocator(ELoc::Z, rank, 0): defined value or TEST per symbolic table; '
+             'Db::getCoordinate (virtual slot of the raw Db) / Db::getSampleCoordinates: 0 (coordinates only feed the overridden routines)',
+             'AMesh::isCompatibleDb: 0 (compatible)', 'messerr / message / mesArg / mestitle: empty']
+_PR_ASSUME = ['mesh objects and the Db are raw storage; the mesh carries the real virtual table of its class; ProjMatrix is an untouched raw buffer (resetFromTriplet is overridden)',
+              'the weight routine is a black box: call c accepts or refuses arbitrarily, returns arbitrary apex indices in range and arbitrary real weights, and overwrites its output arguments even when it refuses']
+for _ns, _tiers in ((3, ('quick', 'thorough')), (4, ('thorough',))):
+    K('C15.d.turbo.%d' % _ns, property='C15', engine='symex', harness='C15/projrows.cpp', entry='k_proj_turbo', tus=_PRTUS, tiers=_tiers,
+      defines={'all': {'VF_NS': _ns, 'VF_ND': 2}},
+      bounds={'quick': 'data base of %d samples, every mask / undefined-value pattern, with and without the rankZ test; 2-D turbo mesh on a 3x3 grid; each sample inside or outside the grid, start node arbitrary; '
+                       'every accept / refuse pattern of the weight routine over its (at most %d) calls' % (_ns, _ns * 4)},
+      timeout_ms={'quick': 120000, 'thorough': 900000}, validate={'quick': 40, 'thorough': 80}, validate_doubles='int',
+      what='MeshETurbo::resetProjMatrix + _addElementToTriplet (+ NF_Triplet::force): the k-th valid sample, when a simplex accepts it, adds exactly ncorner entries (k, apex returned, weight returned) from the '
+           'accepting call; a sample no simplex accepts, or outside the grid, adds nothing (empty row k, never a partial one); only a zero dimension-forcing entry besides; the matrix has one row per valid '
+           'sample and one column per apex; the second attempt one node down happens only for a start node on the last grid line',
+      out='the weights and apex indices themselves (C15.a, C15.c); the sparse matrix construction from the triplet (Eigen); verbose printing',
+      assumptions=_PR_ASSUME,
+      stubs=_PR_STUBS + ['MeshETurbo::_addWeights: black box as described', 'Grid::coordinateToIndicesInPlace: returns the symbolic start node of the sample and its symbolic inside / outside verdict'])
+    K('C15.d.std.%d' % _ns, property='C15', engine='symex', harness='C15/projrows.cpp', entry='k_proj_standard', tus=_PRTUS, tiers=_tiers,
+      defines={'all': {'VF_NS': _ns, 'VF_ND': 2}},
+      bounds={'quick': 'data base of %d samples, every mask / undefined-value pattern, with and without the rankZ test; standard mesh of 3 triangles on 5 apices with an arbitrary apex table; '
+                       'every accept / refuse pattern of the weight routine over its (at most %d) calls' % (_ns, _ns * 3)},
+      timeout_ms={'quick': 120000, 'thorough': 900000}, validate={'quick': 40, 'thorough': 80}, validate_doubles='int',
+      what='MeshEStandard::resetProjMatrix (+ NF_Triplet::force): the k-th valid sample, when a mesh accepts it, adds exactly ncorner entries (k, getApex(mesh, i), weight i) from the accepting call; a sample no '
+           'mesh accepts adds nothing (empty row k, never a partial one); every mesh is tried at most once per sample; the matrix has one row per valid sample and one column per apex',
+      out='as C15.d.turbo; the container pre-test (_coorInMeshContainer accepts everything here: it is only a filter in front of the weight routine)',
+      assumptions=_PR_ASSUME,
+      stubs=_PR_STUBS + ['MeshEStandard::_coorInMesh: black box as described; _coorInMeshContainer: true; _defineContainers / _defineUnits: dummy vectors',
+                         'MeshEStandard::getApex: symbolic apex table; getNMeshes: 3; getNApices: 5'])
+
+CLAIMS['C15'] += (' Also decided: the acceptance / clipping logic of MeshETurbo::_addWeights around an overridden linear solve (C15.c) and the row assembly of the projection matrix in '
+                  'MeshETurbo::resetProjMatrix / MeshEStandard::resetProjMatrix around an overridden weight routine (C15.d: one row per valid sample, complete or empty, never partial).')
